@@ -485,10 +485,13 @@ def rule_g(ctx):
                         fresh = r is None or (isinstance(r, ast.Constant) and r.value is False)
                         calls.append((n, c, fresh, r))
         ctx.instance(R)
+        def conjuncts(e):
+            return [x for v in e.values for x in conjuncts(v)] if isinstance(e, ast.BoolOp) and isinstance(e.op, ast.And) else [e]
+        first_false = (f"0 < {loopvar}", f"1 <= {loopvar}", f"{loopvar} != 0", "False")
         for n, c, fresh, r in calls:
             if fresh:
                 continue
-            ctx.ob(R, f.qname, f"reuse expression `{norm(r)}` is False on the first iteration", norm(r) in (f"0 < {loopvar}", f"1 <= {loopvar}", f"{loopvar} != 0", "False"),
+            ctx.ob(R, f.qname, f"reuse expression `{norm(r)}` is False on the first iteration", any(norm(x) in first_false for x in conjuncts(r)),
                    f"`{norm(r)}` can be true in iteration 0, when no solver has been set up for this matrix yet", c, evidence=True)
         # dataflow: for each in-loop definition of a matrix name, is a fresh solve of that name passed before any reusing solve?
         for n, c, fresh, r in calls:
@@ -499,6 +502,24 @@ def rule_g(ctx):
                 if nme != M or i not in inside:
                     continue
                 d = g.nodes[i]
+                # the reuse flag is switched off by the very condition under which the matrix is re-assembled: `if U: M = ...` with
+                # reuse_solver = ... and not U (U bound once per iteration, before both)
+                negated = {norm(x.operand) for x in conjuncts(r) if isinstance(x, ast.UnaryOp) and isinstance(x.op, ast.Not)}
+                guards = set()
+                cur = d.stmt
+                while cur is not None and cur is not head.stmt:
+                    par = getattr(cur, "_parent", None)
+                    if isinstance(par, ast.If) and cur in par.body and isinstance(par.test, ast.Name):
+                        guards.add(par.test.id)
+                    cur = par
+                switched = False
+                for u in guards & negated:
+                    stores = [x for x in ast.walk(head.stmt) if isinstance(x, ast.Name) and x.id == u and isinstance(x.ctx, ast.Store)]
+                    if len(stores) == 1 and stores[0].lineno < d.stmt.lineno and stores[0].lineno < c.lineno:
+                        switched = True
+                if switched:
+                    ctx.ob(R, f.qname, f"matrix `{M}` re-assembled at `{d.text()[:50]}` gets a fresh solver before `linear_solve({M}, reuse_solver={norm(r)})`", True, "", c)
+                    continue
                 fresh_nodes = {x.id for x, cc, fr, _ in calls if fr and isinstance(cc.args[0], ast.Name) and cc.args[0].id == M}
                 # path from the definition to the reusing call avoiding fresh solves (and avoiding re-definitions of M)
                 redefs = {x.id for x in g.nodes if x.id != d.id and any(nm == M and k == "def" for nm, k in C.defs_of(x))}
